@@ -91,19 +91,56 @@ def _fmt(codes):
 
 
 def eval_case(case: dict) -> dict:
+    """Build the document once, encode it `_encodes` times (default 1) and judge EVERY output by the
+    same declarative oracle: the property holds for each encode of a document, not only the first."""
     spec = dict(case)
     spec.pop("_layer", None)
+    n_enc = spec.pop("_encodes", 1)
+    try:
+        b = docspec.build(spec)
+        outs = [b.doc.rtf_encode() for _ in range(n_enc)]
+    except Exception as e:  # every configuration of the space is valid
+        return {"viol": [{"klass": None, "sig": f"encode-raised-{type(e).__name__}", "detail": f"{type(e).__name__}: {e}"}],
+                "nt": False, "cnt": {"encode-raised": 1, "multi" if spec.get("kind") == "multi" else "single": 1}}
+    res = _judge(spec, b, outs[0])
+    for k, out in enumerate(outs[1:], start=2):
+        rk = _judge(spec, b, out)
+        res.setdefault("cnt", {})["repeated-encodes-judged"] = res.get("cnt", {}).get("repeated-encodes-judged", 0) + 1
+        for v in rk.get("viol") or []:
+            res["viol"].append({"klass": v["klass"], "sig": v["sig"] if v["klass"] else f"encode{k}-{v['sig']}",
+                                "detail": f"encode #{k} of the same document: {v['detail']}"})
+    return res
+
+
+def _own_bottom(spec, b, role, info, ncells):
+    """The bottom style the user asked for on that row itself (single-section documents)."""
+    if role == "data":
+        body_kw = spec.get("body") or {}
+        return [CODE[user_style(body_kw, "bottom", info[1], b.colnames.index(cn))] for cn in b.shown[:ncells]]
+    key = {"footnote_table": "footnote_attrs", "source_table": "source_attrs"}.get(role)
+    if key is None:
+        return [None] * ncells
+    v = (spec.get(key) or {}).get("border_bottom", "")
+    return [CODE[v]] * ncells
+
+
+def _closing_wrong(spec, b, row, role, info, setting, multi):
+    """Does the closing row violate its clause?  A non-empty setting must be on every cell.  The EMPTY
+    setting ('') is ambiguous between "no line" and "no override"; read the only safe way: each cell shows
+    either nothing or the row's own requested border_bottom - in particular never the other tier's style."""
+    got = _row_edge(row, "b")
+    if setting is not None:
+        return any(g != setting for g in got)
+    own = [None] * len(got) if multi else _own_bottom(spec, b, role, info, len(got))
+    return any(g is not None and g != own[j] for j, g in enumerate(got))
+
+
+def _judge(spec, b, out) -> dict:
     viol, cnt = [], {}
 
     def bump(k, v=1):
         cnt[k] = cnt.get(k, 0) + v
 
-    try:
-        b = docspec.build(spec)
-        out = b.doc.rtf_encode()
-    except Exception as e:  # every configuration of the space is valid
-        return {"viol": [{"klass": None, "sig": f"encode-raised-{type(e).__name__}", "detail": f"{type(e).__name__}: {e}"}],
-                "nt": False, "cnt": {"encode-raised": 1, "multi" if spec.get("kind") == "multi" else "single": 1}}
     doc = parse(out)
     if doc.errors:
         viol.append({"klass": None, "sig": "unparseable-" + doc.errors[0][0], "detail": str(doc.errors[:3])})
@@ -167,7 +204,9 @@ def eval_case(case: dict) -> dict:
     last_pi, _, (lrow, lrole, _linfo) = all_rows[-1]
     bump("c2-edges")
     bump(f"doc-closing-row={lrole}")
-    c2_failed = any(g != PL for g in _row_edge(lrow, "b"))
+    c2_failed = _closing_wrong(spec, b, lrow, lrole, _linfo, PL, multi)
+    if PL is None:
+        bump("c2-empty-page-border_last")
     tbl_comp = [(k, o) for k, o in (("footnote", pf_opt), ("source", ps_opt)) if (spec.get(k) or "").startswith("table")]
     # narrow class B: one-page document (multi-section: one-page last section), every table-rendered component is placed "first", the
     # component row (which closes the table) shows its own default bottom (none) and the page
@@ -184,8 +223,9 @@ def eval_case(case: dict) -> dict:
               and all(g == COMPONENT_BOTTOM_DEFAULT for g in _row_edge(lrow, "b"))
               and all(g == PL for g in _row_edge(last_data_on_last_page[-1][0], "b")))
     if c2_failed:
-        bad("clause2-doc-bottom", f"last table row of the document ({lrole}, page {last_pi + 1}/{n_pages})", PL, lrow, "b",
-            klass=K_FIRST1 if first1 else None, sigx=f"-{lrole}")
+        bad("clause2-doc-bottom", f"last table row of the document ({lrole}, page {last_pi + 1}/{n_pages})",
+            PL or "none or the row's own border_bottom (rtf_page.border_last='')", lrow, "b",
+            klass=K_FIRST1 if first1 else None, sigx=f"-{lrole}" + ("-empty-setting" if PL is None else ""))
     if last_pi != n_pages - 1:
         viol.append({"klass": None, "sig": "last-page-without-table-row", "detail": f"last table row is on page {last_pi + 1}/{n_pages}"})
 
@@ -215,15 +255,18 @@ def eval_case(case: dict) -> dict:
         if pi < n_pages - 1:
             bump("c3-edges")
             bump(f"page-closing-row={lastrole}")
-            if any(g != BL for g in _row_edge(lastrow, "b")):
+            if BL is None:
+                bump("c3-empty-body-border_last")
+            if _closing_wrong(spec, b, lastrow, lastrole, rows[last_i][2], BL, False):
                 klass = None
                 if lastrole == "data" and paras:
                     r = lastrow_r = rows[last_i][2][1]
                     own = [CODE[user_style(body_kw, "bottom", lastrow_r, order.index(cn))] for cn in shown[:len(lastrow.cells)]]
                     if _row_edge(lastrow, "b") == own:
                         klass = K_PARA   # nothing was applied: the row shows exactly the user's own border_bottom
-                bad("clause3-page-bottom", f"last table row before the break after page {pi + 1}/{n_pages} ({lastrole})", BL,
-                    lastrow, "b", klass=klass, sigx=f"-{lastrole}")
+                bad("clause3-page-bottom", f"last table row before the break after page {pi + 1}/{n_pages} ({lastrole})",
+                    BL or "none or the row's own border_bottom (rtf_body.border_last='')",
+                    lastrow, "b", klass=klass if BL is not None else None, sigx=f"-{lastrole}" + ("-empty-setting" if BL is None else ""))
         first_data_i = data[0][0]
         for i, (row, role, info) in data:
             r = info[1]
@@ -355,16 +398,21 @@ def plan(run):
         "core = footnote{absent,table,para} x source{absent,table,para} x page_footnote{first,last,all} x page_source{...} x "
         "header{explicit,none} (162 cells) x strategy{plain,page_by,subline_by} x size class{1 page, 2-3, 3+} x user borders "
         "{default, scalar, per column} x style rotation (14 rotations put each of the 14 distinct styles into each of "
-        "rtf_page.border_first/last, rtf_body.border_first/last and the user's top/bottom/left/right; quick: 2 seed-rotated rotations (default user borders with the first only), "
+        "rtf_page.border_first/last, rtf_body.border_first/last and the user's top/bottom/left/right; quick: 2 seed-rotated rotations (the second with scalar user borders only), "
         "thorough: all 14) x page_title (quick: one seed-rotated value; thorough: all 3 for rotations 0/5/10, one value for the others); 3^4 product of three disjoint style triples over "
         "the four settings x a 2-page anchor set; per-cell user-border matrices on interior rows of one-page documents; header variants "
-        "(auto header, two header rows, pageby_header=False); 2- and 3-section documents (clauses 1 and 2 only). "
+        "(auto header, two header rows, pageby_header=False); exactly one of rtf_page.border_last / rtf_body.border_last = '' with distinct own "
+        "border_bottom on table-rendered footnote/source x the 162 cells x sizes (x strategies), each document encoded twice and both outputs judged; "
+        "2- and 3-section documents (clauses 1 and 2 only). "
         "non-trivial = >= 2 pages or a table-rendered footnote/source closes the table; distinct = distinct spec")
     run.assumptions = [
         "the RTF reader (mc/rtfreader) and the role classification by sentinel tags are correct; a side without \\clbrdrX or without a style word is 'no border'",
         "only border styles are compared; widths and colours belong to C09",
         "the four page/body settings range over the 14 non-empty styles with distinct RTF codes ('striped' shares the code of 'engraved' and is left out; "
-        "'' / None for a page/body setting is ambiguous between 'no border' and 'no override' and is not enumerated)",
+        "'' as rtf_page.border_last or rtf_body.border_last (exactly one of them, layer one-empty-closing-style-encoded-twice) is ambiguous "
+        "between 'no line' and 'no override' and is read the safe way: the closing row shows nothing or its own requested border_bottom, never "
+        "another style; '' / None for border_first settings is not enumerated)",
+        "documents of the empty-closing-style layer are encoded twice and both outputs are judged by the same oracle (the property holds for every encode)",
         "page_by without column headers is excluded from both top-edge statements (first table row of the document, first data row of a page), as the property's quantifier says",
         "with page_by and column headers 'the first data row of every page' is read literally: the first row carrying data cells, i.e. the row below the group heading row",
         "interior vertical edges are observed as the left edge of the right-hand cell; border_right is demanded on the last cell of a row only",
@@ -384,13 +432,13 @@ def plan(run):
         for ki, k in enumerate(rots):
             a = assignment(k)
             for pt in pts_of(k):
-                for um in (umodes if not (quick and ki > 0) else umodes[1:]):
+                for um in (umodes if not (quick and ki > 0) else umodes[1:2]):
                     for strat in ("plain", "page_by", "subline_by"):
                         for sc in ("1", "2", "3"):
                             for fn, src, pf, ps, hm in core_cells():
                                 yield table_spec(fn, src, pf, ps, hm, strat, sc, a, um, pt)
 
-    total = sum(len(pts_of(k)) * (3 if not (quick and ki > 0) else 2) for ki, k in enumerate(rots)) * 3 * 3 * 162
+    total = sum(len(pts_of(k)) * (3 if not (quick and ki > 0) else 1) for ki, k in enumerate(rots)) * 3 * 3 * 162
     run.layer("core-product", "mc.props.c07:eval_case", core_layer(), chunk=120, total=total)
 
     # 3^4 product of disjoint style triples for the four settings
@@ -428,6 +476,42 @@ def plan(run):
                             hv.append(table_spec(fn, src, pf, ps, hm, strat, sc, a, "scalar", **more))
     run.layer("header-variants", "mc.props.c07:eval_case", hv, chunk=120, total=len(hv))
 
+    # exactly one of rtf_page.border_last / rtf_body.border_last is '' (the empty style); the footnote / source
+    # rows carry their own distinct border_bottom; every document is encoded twice and both outputs are judged
+    # (an override written into the caller's component leaks to the next page or to the next encode exactly here)
+    em = []
+    for k in (rots[::4] if not quick else rots[:1]):
+        base = assignment(k)
+        for which in ("PL", "BL"):
+            a = dict(base)
+            a[which] = ""
+            for strat in (("plain", "page_by", "subline_by") if not quick else ("plain",)):
+                for sc in ("1", "2", "3"):
+                    for fn, src, pf, ps, hm in core_cells():
+                        if quick and strat == "plain" and sc == "1" and hm == "none":
+                            continue
+                        more = {"_encodes": 2}
+                        if fn == "table":
+                            more["footnote_attrs"] = {"border_bottom": base["UT2"]}
+                        if src == "table":
+                            more["source_attrs"] = {"border_bottom": base["UB2"]}
+                        em.append(table_spec(fn, src, pf, ps, hm, strat, sc, a, "scalar", **more))
+    if quick:   # the other strategies on the cells where a table component is shown on every page
+        base = assignment(rots[0])
+        for which in ("PL", "BL"):
+            a = dict(base)
+            a[which] = ""
+            for strat in ("page_by", "subline_by"):
+                for fn, src, pf, ps, hm in core_cells():
+                    if hm == "explicit" and ((fn == "table" and pf == "all") or (src == "table" and ps == "all")) and pf != "first" and ps != "first":
+                        more = {"_encodes": 2}
+                        if fn == "table":
+                            more["footnote_attrs"] = {"border_bottom": base["UT2"]}
+                        if src == "table":
+                            more["source_attrs"] = {"border_bottom": base["UB2"]}
+                        em.append(table_spec(fn, src, pf, ps, hm, strat, "2", a, "scalar", **more))
+    run.layer("one-empty-closing-style-encoded-twice", "mc.props.c07:eval_case", em, chunk=80, total=len(em))
+
     # multi-section documents: clauses 1 and 2
     ms = []
     for k in (rots if not quick else rots[:1]):
@@ -452,6 +536,7 @@ def plan(run):
                  "plain:pages=3", "page_by:pages=3", "subline_by:pages=3",
                  "doc-closing-row=data", "doc-closing-row=footnote_table", "doc-closing-row=source_table",
                  "page-closing-row=data", "page-closing-row=footnote_table", "page-closing-row=source_table",
-                 "c1-excluded-page_by-without-header"):
+                 "c1-excluded-page_by-without-header", "c2-empty-page-border_last", "c3-empty-body-border_last",
+                 "repeated-encodes-judged"):
         if not run.cnt.get(need):
             run.harness_errors.append({"layer": "vacuity", "case": None, "error": f"vacuity guard: counter {need!r} is zero"})
